@@ -44,7 +44,11 @@ func init() {
 						items = append(items, Item{ID: fmt.Sprintf("list:%s/len=%d", p.Name, n), Run: func(c *Ctx) { c18list(c, p, n) }})
 					}
 				}
-				if p.Family == "WriteStringList" && p.TArgs[0] == "uint8" && p.TArgs[1] != "uint32" {
+			}
+			// per-element prefix of string lists: every (count type, element prefix type) pair
+			for _, p := range c.primInstances() {
+				p := p
+				if p.Family == "WriteStringList" && p.TArgs[1] != "uint32" {
 					items = append(items, Item{ID: "elemtext:" + p.Name, Run: func(c *Ctx) { c18elemText(c, p) }})
 				}
 			}
@@ -321,7 +325,13 @@ func c18elemText(c *Ctx, p primInst) {
 			continue
 		}
 		if !isNilErr(fs.ret) {
-			c.Prove(fs, "error-only-beyond-max", Lt(CI(mx), t.S.Len, true), nil)
+			c.Prove(fs, "error-only-beyond-max", Lt(CI(mx), t.S.Len, true), func(val func(*Term) uint64) *Violation {
+				v := &Violation{Detail: fmt.Sprintf("%s refuses an element of %d bytes although its prefix %s can represent it", p.Name, val(t.S.Len), K)}
+				if tj, ok := bigTextJSON(t, val); ok {
+					v.Replay = &ReplayReq{Steps: []map[string]any{step("op", "newbuf", "buf", "b", "hex", ""), step("op", "prim", "fn", p.Name, "args", []any{map[string]any{"buf": "b"}, []any{tj}})}, Judge: Judge{Kind: "err_nonnil", Step: 1}}
+				}
+				return v
+			})
 			continue
 		}
 		c.Witness(fs, "success path", nil)
